@@ -9,12 +9,19 @@ def run(tier, seed, replay=None):
     check = Check('C16', tier, seed)
     if THEOREMS:
         prove(check, 'theories/Props_C16_ps.v', THEOREMS)
-    engines = ['ps', 'rr']
+    engines = ['ps', 'rr', 'shut']
     if replay:
         head = open(replay).read(4000)
         engines = [e for e in engines if ('case ' + e + ' ') in head] or engines[:1]
     for e in engines:
-        router_stage(check, 'C16', e, tier, seed, replay, 80, 4000)
-    check.coverage['rule'] = ' ; '.join(r for e, r in (('ps', PS_RULE), ('rr', RR_RULE)) if e in engines)
+        if e == 'shut':
+            from props.c05 import replay_text
+            differential(check, 'C16', 'shut', 'shut', tier, seed, replay, 1, 3, replay_text, sample_lines=6, timeout=900, shards=6 if tier == 'quick' else 12)
+        else:
+            router_stage(check, 'C16', e, tier, seed, replay, 80, 4000)
+    SHUT_RULE = ('shut: each case: in-process server on loopback QUIC; a pub/sub and a request/reply topic are exercised by real clients; a subscriber that reads stays connected, '
+                 'optionally an idle publisher; 0, 1 or 3 registrations are in flight (a peer granting the server no stream credit registers and never reads the acknowledgement); then '
+                 'SIGINT is raised and Server::listen must return (Server::shutdown: close every topic channel, join every router) within 8 s; non-trivial = distinct (in-flight, idle publisher)')
+    check.coverage['rule'] = ' ; '.join(r for e, r in (('ps', PS_RULE), ('rr', RR_RULE), ('shut', SHUT_RULE)) if e in engines)
     check.coverage['trusted_base'] = TRUSTED_BASE_COMMON + ROUTER_TRUST
     return check.finish()
